@@ -436,13 +436,13 @@ def body(chk, db, cfgname):
         r6.bad(ssite, g.loc(), "copy constructor does not copy %s" % ("Sites" if not sites_copied else "the term storage (deep)"), cfgname)
 
     r7 = chk.rule("C20-R7", "after addSite the look-up by label returns the site added last under that label; other labels are untouched; getSite fails for unknown labels", "F7 table maps, interpreted over add/look-up histories", 2)
-    check_site_table(r7, db, cfgname)
+    check_site_table(r7, db, cfgname, chk.tier == "thorough")
 
     chk.undecided.append("that the stored terms, once translated, give the intended matrix (C04); exception safety of allocation failures")
     chk.trusted.append("R2 assumes LatticePresets functions that call Lattice::addTerm pre-validate what it validates (its throws are not re-discharged at those calls)")
 
 
-def check_site_table(r7, db, cfgname):
+def check_site_table(r7, db, cfgname, thorough=False):
     """The site table is only keyed by labels (compared, never computed with), so the extracted bodies of addSite / getSite
     are evaluated on histories over two labels: add A, add B, add A again with other sizes; look up A, B and an unknown label."""
     from pv.summ import Interp, Obj, Thrown
@@ -460,40 +460,48 @@ def check_site_table(r7, db, cfgname):
         if ctor is None or ctor.body is None or ctor.body < 0:
             fr.bad(i, "Site constructor not analysable")
         return fr.ip.run_ctor(ctor, args, Obj("Site", **{ST + "Label": None, ST + "OrbitalSize": None, ST + "SpinSize": None}))
+    import itertools
+    hists = [[("A", 1, 2), ("B", 2, 2), ("A", 3, 1)]]
+    if thorough:
+        # every history of up to 4 additions over two labels, each addition with its own sizes
+        for n_ in range(1, 5):
+            for labs in itertools.product("AB", repeat=n_):
+                hists.append([(l_, 1 + k_, 1 + (k_ % 2)) for k_, l_ in enumerate(labs)])
     for which, site in (("pointer", L + "::addSite(Site*)"), ("sizes", L + "::addSite(label,orbitals,spins)")):
-        with r7.guard(site, (add_p[0] if which == "pointer" else add_3[0]).loc(), cfgname):
-            lat = Obj("Lattice", **{L + "::Sites": {}, L + "::Terms": Obj("TermStorage")})
-            ip = Interp(db, {"new Pomerol::Lattice::Site": new_site})
-            hist = [("A", 1, 2), ("B", 2, 2), ("A", 3, 1)]
-            want = {}
-            for lab, o_, s_ in hist:
-                try:
-                    if which == "pointer":
-                        ip.call_fn(add_p[0], [Obj("Site", **{ST + "Label": lab, ST + "OrbitalSize": o_, ST + "SpinSize": s_})], this=lat)
-                    else:
-                        ip.call_fn(add_3[0], [lab, o_, s_], this=lat)
-                except Thrown as t:
-                    raise AnalysisBroken("addSite throws %s" % t.tt)
-                want[lab] = (lab, o_, s_)
+        fn_ = add_p[0] if which == "pointer" else add_3[0]
+        with r7.guard(site, fn_.loc(), cfgname):
             probs = []
-            for lab in ("A", "B"):
-                try:
-                    got = ip.call_fn(get, [lab], this=lat)
-                    tup = (got.f.get(ST + "Label"), got.f.get(ST + "OrbitalSize"), got.f.get(ST + "SpinSize")) if isinstance(got, Obj) else got
-                except Thrown as t:
-                    tup = "exception " + t.tt
-                if tup != want[lab]:
-                    probs.append("after addSite%s in this order, getSite(\"%s\") gives %s, the site added last under this label is %s" % (tuple(hist), lab, tup, want[lab]))
-            try:
-                got = ip.call_fn(get, ["C"], this=lat)
-                probs.append("getSite of a label that was never added returns %r instead of failing" % (got,))
-            except Thrown:
-                pass
+            for hist in hists:
+                lat = Obj("Lattice", **{L + "::Sites": {}, L + "::Terms": Obj("TermStorage")})
+                ip = Interp(db, {"new Pomerol::Lattice::Site": new_site})
+                want = {}
+                for lab, o_, s_ in hist:
+                    try:
+                        if which == "pointer":
+                            ip.call_fn(add_p[0], [Obj("Site", **{ST + "Label": lab, ST + "OrbitalSize": o_, ST + "SpinSize": s_})], this=lat)
+                        else:
+                            ip.call_fn(add_3[0], [lab, o_, s_], this=lat)
+                    except Thrown as t:
+                        raise AnalysisBroken("addSite throws %s" % t.tt)
+                    want[lab] = (lab, o_, s_)
+                for lab in ("A", "B", "C"):
+                    try:
+                        got = ip.call_fn(get, [lab], this=lat)
+                        tup = (got.f.get(ST + "Label"), got.f.get(ST + "OrbitalSize"), got.f.get(ST + "SpinSize")) if isinstance(got, Obj) else got
+                    except Thrown as t:
+                        tup = None
+                    if lab in want and tup != want[lab]:
+                        probs.append("after addSite%s in this order, getSite(\"%s\") %s, the site added last under this label is %s" % (
+                            tuple(hist), lab, ("gives %s" % (tup,)) if tup is not None else "fails", want[lab]))
+                    elif lab not in want and tup is not None:
+                        probs.append("after addSite%s, getSite of the label \"%s\" that was never added returns %r instead of failing" % (tuple(hist), lab, tup))
+                if probs:
+                    break
             if probs:
-                r7.bad(site, (add_p[0] if which == "pointer" else add_3[0]).loc(), "; ".join(probs), cfgname)
+                r7.bad(site, fn_.loc(), "; ".join(probs[:2]), cfgname)
             else:
-                r7.ok(site, (add_p[0] if which == "pointer" else add_3[0]).loc(), "history add A, add B, add A again: look-ups return the last site added under each label, an unknown label fails", cfgname)
-
+                r7.ok(site, fn_.loc(), "%d add/look-up histor%s over two labels: look-ups return the last site added under each label, a label never added fails" % (
+                    len(hists), "y" if len(hists) == 1 else "ies"), cfgname)
 
 
 def fact_str(f):
